@@ -82,6 +82,11 @@ func (d *PathDecoder) SignatureAtPos(filename string, pos hcl.Pos) (*lang.Functi
 			trimmedBytes := bytes.TrimRight(recoveredBytes, " \t\n")
 			if string(trimmedBytes) == "," {
 				activePar = lastArgIdx + 1
+			} else {
+				// the cursor is in the whitespace after an argument (before
+				// the next comma or the closing parenthesis), which still
+				// belongs to that argument rather than to the first one
+				activePar = lastArgIdx
 			}
 		}
 
